@@ -210,7 +210,7 @@ func targetedSchemaMutation(r *Rng, root map[string]interface{}) string {
 	}
 	fields, _ := idx["fields"].(map[string]interface{})
 	fkeys := mapKeys(fields)
-	switch r.Intn(9) {
+	switch r.Intn(14) {
 	case 0:
 		for _, v := range ids {
 			ids["9999"] = v // the same uuid under two ids
@@ -269,6 +269,49 @@ func targetedSchemaMutation(r *Rng, root map[string]interface{}) string {
 	case 8:
 		root["fields"] = pick(r, []interface{}{nil, "x", map[string]interface{}{}, map[string]interface{}{"I": "notadescriptor"}})
 		return "bad-fields"
+	// cross-reference mutations: every part stays well formed, the parts stop agreeing
+	case 9, 10:
+		if len(fkeys) > 0 {
+			fm, _ := fields[fkeys[r.Intn(len(fkeys))]].(map[string]interface{})
+			if fm != nil {
+				descs, _ := root["fields"].(map[string]interface{})
+				names := []interface{}{"Nope", "", nil, json.Number("1"), "N", "Tags"}
+				for _, k := range mapKeys(descs) {
+					names = append(names, k, k, k) // mostly: the name of another real field
+				}
+				fm["name"] = names[r.Intn(len(names))]
+				return "index-name-other-field"
+			}
+		}
+	case 11:
+		if len(fkeys) > 1 {
+			a, b := fkeys[r.Intn(len(fkeys))], fkeys[r.Intn(len(fkeys))]
+			fields[a], fields[b] = fields[b], fields[a]
+			return "field-indexes-swapped"
+		}
+	case 12:
+		if descs, ok := root["fields"].(map[string]interface{}); ok && len(descs) > 0 {
+			dk := mapKeys(descs)
+			d, _ := descs[dk[r.Intn(len(dk))]].(map[string]interface{})
+			if d != nil {
+				if r.Bool() {
+					d["path"] = pick(r, []interface{}{dk[r.Intn(len(dk))], "Nope", "", nil})
+					return "descriptor-path-other-field"
+				}
+				d["type"] = pick(r, []interface{}{"string", "int", "time.Time", "float64", "*int", "", nil})
+				return "descriptor-type-changed"
+			}
+		}
+	case 13:
+		if len(fkeys) > 0 {
+			fm, _ := fields[fkeys[r.Intn(len(fkeys))]].(map[string]interface{})
+			if tuples, ok := fm["index"].([]interface{}); ok && len(tuples) > 0 {
+				if t, ok := tuples[r.Intn(len(tuples))].([]interface{}); ok && len(t) == 2 {
+					t[1] = pick(r, []interface{}{json.Number("999"), json.Number("18446744073709551615")})
+					return "dangling-object-id"
+				}
+			}
+		}
 	}
 	return "noop"
 }
